@@ -1,5 +1,6 @@
 import A5.Props.C16Core
 import A5.Lemmas.SweepFormula3
+import A5.Lemmas.RuntimeTriangles2
 /-! # C16 — the face projection is area-preserving at every point (continued)
 
 `A5/Props/C16Core.lean` holds T1-T4 (affine step, the two h² laws, the Jacobian identity in polar coordinates UNDER the
@@ -60,5 +61,25 @@ theorem equal_area_two_variable {a b d : RadialRoundTrip.R3} (ha : dotR a a = 1)
           ((F' (1, 0)).1 * (F' (0, 1)).2 - (F' (0, 1)).1 * (F' (1, 0)).2)
         = S / (2 * Ω) * Real.sin θ :=
   equal_area_pointwise_fderiv ha hb hd hbd hT hMq hD S Ω θ hΩ
+
+open A5.RuntimeTriangles A5.Gen.Runtime in
+/-- **`runtime_equal_area`**: `equal_area_pointwise` for every one of the 240 triangles the running library uses (table
+`A5.Gen.Runtime.SPH_TRIANGLES`, regenerated and cross-checked on every run), at every point of its far edge, with no hypothesis left -/
+theorem runtime_equal_area : ∀ e ∈ SPH_TRIANGLES, ∀ t : ℝ, 0 ≤ t → t ≤ 1 → ∀ S θ : ℝ,
+    gcPoint (entryB e) (edgeDirR (entryB e) (entryC e))
+        (edgeArcR (entryA e) (entryB e) (edgeDirR (entryB e) (entryC e))
+          (azimuthR (entryA e) (entryB e) (slerpR (entryB e) (entryC e) t))) = slerpR (entryB e) (entryC e) t ∧
+    Real.sin (angleR (entryA e) (slerpR (entryB e) (entryC e) t) / 2) ≠ 0 ∧
+    0 < triAreaR (entryA e) (entryB e) (entryC e) ∧
+    ∃ hθ βψ : ℝ,
+      HasDerivAt (fun x => Real.sin (x / 2) / Real.sin (angleR (entryA e) (slerpR (entryB e) (entryC e) t) / 2)) hθ θ ∧
+      HasDerivAt (fun x => triAreaR (entryA e) (entryB e)
+          (gcPoint (entryB e) (edgeDirR (entryB e) (entryC e))
+            (edgeArcR (entryA e) (entryB e) (edgeDirR (entryB e) (entryC e)) x)) /
+          triAreaR (entryA e) (entryB e) (entryC e)) βψ
+        (azimuthR (entryA e) (entryB e) (slerpR (entryB e) (entryC e) t)) ∧
+      (Real.sin (θ / 2) / Real.sin (angleR (entryA e) (slerpR (entryB e) (entryC e) t) / 2)) * S * (hθ * βψ) =
+        S / (2 * triAreaR (entryA e) (entryB e) (entryC e)) * Real.sin θ :=
+  A5.RuntimeTriangles.runtime_equal_area
 
 end A5.C16
